@@ -122,6 +122,10 @@ class Enumerator:
     def const_of(self, n, st):
         if isinstance(n, ast.Constant):
             return n.value
+        if (isinstance(n, ast.Name) and n.id == 'INFINITY' and n.id not in st.env) or \
+                (isinstance(n, ast.Attribute) and src(n) in ('np.inf', 'numpy.inf', 'math.inf', 'np.Inf', 'np.infty')) or \
+                (isinstance(n, ast.Call) and src(n).replace('"', "'").replace(' ', '') == "float('inf')"):
+            return float('inf')     # libc.math INFINITY / numpy's / Python's spelling of +inf
         if isinstance(n, ast.Name):
             return st.env.get(n.id, TOP)
         if isinstance(n, ast.Attribute) and _is_chain(n):
@@ -153,6 +157,11 @@ class Enumerator:
                 return frozenset('<>')
             except TypeError:
                 return frozenset('<>')
+        # +inf against a quantity that is not known to be infinite (grid times, clocks): strictly greater
+        if isinstance(cl, float) and cl == float('inf') and cr is TOP:
+            return frozenset('>')
+        if isinstance(cr, float) and cr == float('inf') and cl is TOP:
+            return frozenset('<')
         if (lt, rt) in st.rel:
             return st.rel[(lt, rt)]
         if (rt, lt) in st.rel:
